@@ -681,6 +681,13 @@ class _LintFixture(_np.ndarray):
             self.table = r * lon
         self._key = key
         return self.table
+    def cached_early(self, rate, step, scale):
+        key2 = (rate, scale)
+        if key2 == self._key2:
+            return self._val2 + 1
+        m2 = rate * step * scale
+        self._key2, self._val2 = key2, m2
+        return m2 + 1
     def rebind(self):
         self.A = self.A/2
         if self.is_ok:
@@ -814,7 +821,7 @@ def self_test(chk, prog):
         signature(sink, p5, [FIXTURE_HOST])
     except Exception as e:
         chk.error("lint SIGNATURE crashed on its positive example: %s: %s" % (type(e).__name__, e))
-    for name in list(ALL) + ["SHADOW-REBIND.memo", "SHADOW-REBIND.derived", "CACHE-KEY.property", "SIGN-CANON.rows"]:
+    for name in list(ALL) + ["SHADOW-REBIND.memo", "SHADOW-REBIND.derived", "CACHE-KEY.property", "CACHE-KEY.early", "SIGN-CANON.rows"]:
         fired = name in sink.rules
         chk.canary("lint %s fires on its embedded positive example" % name, fired, "" if fired else "no finding on the fixture")
 
@@ -1328,7 +1335,7 @@ def cache_key(chk, prog, files):
                             "change (e.g. another model file loaded) the cached result is stale" % (ast.unparse(cmp_)[:60], ", ".join("self." + a_ for a_ in stale_state)), line=cmp_.lineno)
             missing = sorted(need - key_params)
             if missing:
-                chk.finding("CACHE-KEY", f.module.rel, f.qname, "key self.%s = %s" % (attr, ast.unparse(key_expr)[:60]),
+                chk.finding("CACHE-KEY.early" if early_nodes and not guarded_nodes[:len(guarded_nodes) - len(early_nodes)] else "CACHE-KEY", f.module.rel, f.qname, "key self.%s = %s" % (attr, ast.unparse(key_expr)[:60]),
                             "the work skipped while `%s` is unchanged also depends on %s, which the remembered key (%s) does not contain: a call that changes only %s reuses stale results"
                             % (ast.unparse(cmp_)[:60], ", ".join("`%s`" % m for m in missing), ", ".join(sorted(key_params)), "/".join(missing)), line=cmp_.lineno)
     # memoising decorators on methods: @cached_property / @lru_cache / @cache.  The cached value is keyed on nothing (cached_property) or on the explicit
